@@ -3,12 +3,12 @@ import re
 
 PROPS = {
     "C12": {
-        "modules": ["Ark.Props.C12", "Ark.Props.C04c", "Ark.Props.C04d"],
+        "modules": ["Ark.Props.C12", "Ark.Props.C12b", "Ark.Props.C04c", "Ark.Props.C04d"],
         "gen_from": "C16",
         "crate": "harness2",
         "rule": "one op line per subgroup test / cofactor clearing / cofactor-inverse / sampling call on a point of the WHOLE curve; distinct = distinct op line; non-trivial = non-identity point",
         "exhaustive": ["every point of five toy curves with cofactors 4, 6, 8 (SW and TE)"],
-        "partial": ["the psi-based G2 subgroup tests and clearing formulas (BLS12-381/377, BN254 G2) and the claim #E = h*r behind the cofactor-one short-cut are not proved (point counts are not decidable by evaluation): covered by the correspondence on points of the whole curve for all 52 shipped configurations"],
+        "partial": ["psi-based G2 subgroup tests (BLS12-381, BN254): additivity of psi is proved on the curve (C12b) and the shipped constants are kernel-checked, but the characteristic equation psi^2 - t psi + q = 0 (theory of the Frobenius trace) and the ambient group order #E = h*r (also behind the cofactor-one short-cut) stay hypotheses: point counts are not decidable by evaluation; these are covered by the correspondence on points of the whole curve for all 52 shipped configurations"],
         "assumptions": ["h_eff constants for the optimised clearing maps are those of RFC 9380 8.8 / the crates' comments"],
     },
     "C06": {
